@@ -297,8 +297,11 @@ pub fn execute(cfg: &ExecCfg, ch: &mut Chooser) -> MResult<ExecOut> {
                     let creating = ev.name != "openat" || ev.flags.unwrap_or(0) & libc::O_CREAT as u64 != 0;
                     if let (true, Some(id), Some(fd), Some(name)) = (creating, &ev.fdid, ev.fd, &ev.path) {
                         if out.ever_inside.contains(&(id.dev, id.ino)) {
-                            if let Some(st) = lstat(&format!("/proc/{}/fd/{}/{}", ts[w].pid, fd, name)) { out.ever_inside.insert((st.dev, st.ino)); }
-                            if let Some(r) = &ev.retid { if ev.name == "openat" { out.ever_inside.insert((r.dev, r.ino)); } }
+                            let entry = lstat(&format!("/proc/{}/fd/{}/{}", ts[w].pid, fd, name));
+                            if let Some(st) = &entry { out.ever_inside.insert((st.dev, st.ino)); }
+                            // the descriptor an O_CREAT open returns is that entry - unless the open followed a symlink (or O_PATH made
+                            // the kernel ignore O_CREAT and follow one): then it is whatever the link pointed to, and is judged as such
+                            if let Some(r) = &ev.retid { if ev.name == "openat" && entry.as_ref().map(|st| (st.dev, st.ino) == (r.dev, r.ino)).unwrap_or(true) { out.ever_inside.insert((r.dev, r.ino)); } }
                         }
                     }
                     out.ever_inside.extend(walk_inodes(&cfg.root_out));
